@@ -335,7 +335,11 @@ func CheckC15(e *Entry, src *choice.Src, st *Stats) *Violation {
 	return runC15(e, ops, st)
 }
 
+// LastOps15 is the history the last runC15 call executed.
+var LastOps15 []Op
+
 func runC15(e *Entry, ops []Op, st *Stats) *Violation {
+	LastOps15 = ops
 	res, evs, _ := RunHistory15(e, ops)
 	LastRunDigest = shortHash(historyDigestString(res))
 	sig, detail, stats := judge15(e, ops, res, evs)
